@@ -43,8 +43,8 @@ ASSUMPTIONS = [
 ]
 
 T.ALPHABETS['c01wide'] = dict(T.ALPHABETS['wide'])
-T.ALPHABETS['c01wide']['atoms'] = T.ALPHABETS['wide']['atoms'] + ['""', '"\\"q\\\\"']
-T.ALPHABETS['c01wide']['concepts'] = T.ALPHABETS['wide']['concepts'] + ['""~1']
+T.ALPHABETS['c01wide']['atoms'] = T.ALPHABETS['wide']['atoms'] + ['""', '"\\"q\\\\"', 'k#1']
+T.ALPHABETS['c01wide']['concepts'] = T.ALPHABETS['wide']['concepts'] + ['""~1', 'x#y']
 
 # comment lines for the fixed-point clause (multi-key lines, empty values, odd spacing)
 COMMENT_SEGMENTS = ['::id 1', '::snt x y', '::k', ' ::z  w ', 'free text', ':: a', '::a:b c']
